@@ -730,16 +730,16 @@ def run_case(case):
 
 
 def single_steps(tier):
-  """Every entity x path x target; the extra paths of thorough go with the quick targets only."""
+  """Every entity x path x target of the tier."""
   more = tier == 'thorough'
   out = []
   for (t, c) in COL_ENTITIES:
     for p in COL_PATHS_QUICK + (COL_PATHS_MORE if more else []):
-      for lab in COL_TARGETS_QUICK + (COL_TARGETS_MORE if more and p in COL_PATHS_QUICK else []):
+      for lab in COL_TARGETS_QUICK + (COL_TARGETS_MORE if more else []):
         out.append([p, t, c, lab])
   for (t, _) in TAB_ENTITIES:
     for p in TAB_PATHS_QUICK + (TAB_PATHS_MORE if more else []):
-      for lab in TAB_TARGETS_QUICK + (TAB_TARGETS_MORE if more and p in TAB_PATHS_QUICK else []):
+      for lab in TAB_TARGETS_QUICK + (TAB_TARGETS_MORE if more else []):
         out.append([p, t, None, lab])
   # two renames in one metadata update (this entity and the next one of its table / the next table)
   two = [(t, c) for t in TORDER for (c, _) in DATA_COLS[t]] + TAB_ENTITIES
@@ -750,13 +750,11 @@ def single_steps(tier):
 
 
 def pair_steps():
-  """first rename (every entity to a fresh name; the most mentioned ones also to a colliding
-  name) then a second one: every entity to a fresh name, the same entity back to its original
-  id, and columns of the same table to a foreign name through the metadata path."""
-  firsts = [['RenameColumn', t, c, lab] for (t, c) in COL_ENTITIES for lab in ('fresh', 'collide')
-            if lab == 'fresh' or (t, c) in BUSY]
-  firsts += [['RenameTable', t, None, lab] for (t, _) in TAB_ENTITIES for lab in ('fresh', 'collide')
-             if lab == 'fresh' or (t, None) in BUSY]
+  """first rename (every entity to a fresh and to a colliding name) then a second one: every
+  entity to a fresh name, the same entity back to its original id, and columns of the same table
+  to a foreign name through the metadata path."""
+  firsts = [['RenameColumn', t, c, lab] for (t, c) in COL_ENTITIES for lab in ('fresh', 'collide')]
+  firsts += [['RenameTable', t, None, lab] for (t, _) in TAB_ENTITIES for lab in ('fresh', 'collide')]
   out = []
   for a in firsts:
     for (t, c) in COL_ENTITIES:
@@ -780,7 +778,7 @@ def all_cases(tier):
     cases += [{'edit': None, 'steps': p} for p in pair_steps()]
     for edit in ('pad', 'rotate', 'pad-same-bundle'):
       cases += [{'edit': edit, 'steps': [[('RenameColumn' if c else 'RenameTable'), t, c, lab]]}
-                for (t, c) in COL_ENTITIES + TAB_ENTITIES for lab in ('fresh', 'sanitise')]
+                for (t, c) in COL_ENTITIES + TAB_ENTITIES for lab in ('fresh', 'sanitise', 'collide')]
   return cases
 
 
@@ -820,7 +818,8 @@ def run(tier, report):
       'rename path (quick: RenameColumn, UpdateRecord colId, UpdateRecord label, RenameTable, '
       'UpdateRecord tableId; thorough also BulkUpdateRecord, label+untieColIdFromLabel, raw section '
       'title) x every target shape (quick: fresh, needs sanitising, collides case-insensitively, '
-      'column of another table, keyword; thorough 13 more for columns and 7 more for tables), plus '
+      'column of another table, keyword, for tables also the id of a formula function; thorough 13 '
+      'more for columns and 7 more for tables), plus '
       'two renames in one metadata update (swap / same target); each case from the same snapshot; '
       'thorough adds %d pairs of renames in sequence and renames after 3 kinds of formula edits '
       '(first line inserted, formulas exchanged, edit and rename in one bundle); non-trivial = the '
